@@ -1,0 +1,6 @@
+//go:build !verif
+
+package sched
+
+// verifNow is the virtual clock of the verification harness; without the build tag there is none.
+func verifNow(*TimerQueue) (int64, bool) { return 0, false }
